@@ -95,6 +95,13 @@ def make_case(rng, tier, damage, max_damage=4):
         to = rng.choice([whole - pl, whole] if whole < len(files[0][1]) else [whole - pl])
         if any(files[0][1].bytes()[to:]):
             case["damage"] = [["trunc", files[0][0], to]]
+    elif damage and any(b.kind == "h" and len(b) > 1 for _, b in files) and rng.random() < 0.7:
+        # self-similar content (one byte or one block repeated) cut short: the lost bytes look
+        # exactly like the ones read just before them
+        rel, blob = rng.choice([(r, b) for r, b in files if b.kind == "h" and len(b) > 1])
+        n = len(blob)
+        cuts = [c for c in (((n - 1) // pl) * pl, n // 2, n - 1, pl) if 0 < c < n] or [n - 1]
+        case["damage"] = [["trunc", rel, rng.choice(cuts)]]
     elif damage and twin_rel is not None and rng.random() < 0.7:
         n = len(dict(files)[twin_rel])
         case["damage"] = [["flip", twin_rel, rng.choice([0, n - 1, n // 2])]]
